@@ -3,11 +3,11 @@ from __future__ import annotations
 
 import ast
 import itertools
-from typing import List, Optional, Set
+from typing import Dict, List, Optional, Set, Tuple
 
 from .. import cfg as C
 from .. import lib as L
-from ..core import AnalysisError, FuncInfo, Repo, unparse
+from ..core import AnalysisError, FuncInfo, Repo, is_logging_call, unparse
 from ..prov import callee_name
 from ..report import Finding, RuleResult
 from . import c12
@@ -22,7 +22,15 @@ EXPLANATION = (
     "the fluent environment used to evaluate numeric right-hand sides derives from the pre-state at the call sites in Operator. "
     "C03.universal: the universal-effect pass dominates the return of apply and receives (pre-state, copy); its type filter is a "
     "subtype test (C06.conform). C03.escape: a fluent object owned by the operator's expression trees is not stored into the "
-    "returned state without a copy."
+    "returned state without a copy. "
+    "Necessary conditions added after the mutation campaign (each decided on all paths of the flattened public function): C03.grounded: with "
+    "the 'grounded' flag false, no read of the effect groups is reachable around the statements that instantiate them (also with validation "
+    "skipped). C03.walk: no turn of a loop over effect groups / objects / universal effects / discrete and numeric effects can end the loop. "
+    "C03.noobjects: with the optional object table absent it is not dereferenced. C03.universal.ground: the per-object group of a forall is "
+    "grounded, with the positional binding plus quantified parameter -> object, before it is tested / applied. C03.delete.positive: the texts "
+    "a delete effect is looked up by are read from a copy made positive. C03.predmap: no lookup of an absent predicate key, the removal is "
+    "reached for a present key, a possibly new set of an add effect is stored. C03.evalstate: with a pre-state given the fluent environment of "
+    "the right-hand sides is the pre-state's."
 )
 UNDECIDED = ("the frame (that nothing else changes) and full successor equality for all states; consistency side conditions of "
              "simultaneously firing effects; correctness of grounding (C20) and of condition evaluation (C02)")
@@ -84,6 +92,23 @@ def _kind_of_apply(p, a: ast.Call) -> str:
     return "universal" if any(x[0].startswith("fresh:") for x in tr) else "group"
 
 
+def _same_object(paths) -> frozenset:
+    """provenance of an object up to the sequences it was moved through: an element of `[e for e in xs if ..]` / of a list filled by
+    append is the element of xs"""
+    out = set()
+    for x in paths:
+        if len(x) == 1 and x[0] in ("fresh:comp", "fresh:list"):
+            continue
+        y = []
+        for st in x:
+            if st == "elem" and y and (y[-1] == "in:elt" or y[-1].startswith("in:append@")):
+                y.pop()
+                continue
+            y.append(st)
+        out.add(tuple(y))
+    return frozenset(out)
+
+
 def rule_antecedent(repo: Repo) -> RuleResult:
     r = RuleResult("C03.antecedent", "a conditional / universal effect group is applied iff its antecedents hold in the pre-state",
                    "PDDL conditional effects")
@@ -106,10 +131,10 @@ def rule_antecedent(repo: Repo) -> RuleResult:
         extra = h.args[1] if len(h.args) > 1 else next((k.value for k in h.keywords if k.arg == "allow_inapplicable_actions"), None)
         if extra is not None and not (isinstance(extra, ast.Constant) and extra.value is False):
             r.fail(Finding("C03.antecedent", f, "antecedent-bypass", f"antecedents_hold is called with a bypass flag {unparse(extra)}", node=h))
-    recv_of = {id(h): frozenset(p.trace(h.func.value)) for h in holds}
+    recv_of = {id(h): _same_object(p.trace(h.func.value)) for h in holds}
     for a in applies:
         r.site(L.site(f, a, "effect application"))
-        mine = frozenset(p.trace(a.func.value))
+        mine = _same_object(p.trace(a.func.value))
         hold_atoms = {hid: ("hold" if tr == mine else "hold:other") for hid, tr in recv_of.items()}
         G = L.Guards(f, _apply_matcher(prestate, hold_atoms))
         table = {}
@@ -483,6 +508,13 @@ def rule_universal(repo: Repo) -> RuleResult:
                 isinstance(e.comparators[0], ast.Constant) and e.comparators[0].value is None and \
                 any("attr:problem_objects" in x for x in p.trace(e.left)):
             return "noobjects" if isinstance(e.ops[0], (ast.Is, ast.Eq)) else "!noobjects"
+        if isinstance(e, (ast.Name, ast.Attribute)) and isinstance(e.ctx, ast.Load) and not (isinstance(e, ast.Name) and e.id == f.self_name):
+            try:
+                tr = p.trace(e)
+            except KeyError:
+                tr = set()
+            if tr and all(x == ("self", "attr:problem_objects") for x in tr):
+                return "!noobjects"      # truth value of the object table (an empty table has nothing to range over)
         m = _apply_matcher("previous_state")(e)
         return m
 
@@ -555,6 +587,577 @@ def rule_setmembers(repo: Repo, rid: str = "C03.setmembers") -> RuleResult:
     return r
 
 
+
+# ------------------------------------------------------------------------------------------------ necessary conditions added in round 5
+# (detection gaps found by the mutation campaign: each clause states what every correct implementation has to do on ALL paths)
+
+GROUPS_FIELD = "grounded_effects"      # anchor state of the property: the effect groups that Operator.ground instantiates
+
+# collections the transition has to walk completely (attribute of self -> semantic name used in the role of a finding)
+OPERATOR_WALKS = {"grounded_effects": "effect-groups", "problem_objects": "problem-objects", "lifted_universal_effects": "universal-effects",
+                  "universal_effects": "universal-effects", "conditional_effects": "quantified-conditional-effects"}
+EFFECT_WALKS = {"grounded_discrete_effects": "discrete-effects", "grounded_numeric_effects": "numeric-effects"}
+# steps that keep a value "the collection itself / its elements in another container" (no selection of one element, no field of an element)
+_WALK_STEPS = ("elem", "in:elt", "call:values", "call:items", "call:copy")
+_WALK_PREFIXES = ("in:append@", "arg0:list", "arg0:tuple", "arg0:sorted", "arg0:set", "arg0:frozenset", "arg0:reversed", "arg0:iter", "arg0:enumerate")
+
+# the parameter map of the forall pass: action parameters paired with the call arguments position by position (same oracle as C20.zip)
+MAP_KEY = ("self", "attr:action", "attr:signature", "zip0")
+MAP_VALUE = ("self", "attr:grounded_call_objects", "zip1")
+
+# texts of a grounded literal that depend on its polarity ('(not (p a))' for a negative literal): a delete effect is looked up in the
+# state by the text of its POSITIVE form
+POLARITY_TEXTS = ("untyped_representation", "lifted_untyped_representation")
+
+
+def _no_atoms(_e):
+    return None
+
+
+def _is_self_attr(e: ast.AST, f: FuncInfo, attr: Optional[str] = None) -> bool:
+    return isinstance(e, ast.Attribute) and isinstance(e.value, ast.Name) and e.value.id == f.self_name and (attr is None or e.attr == attr)
+
+
+def _surely_evaluated(G: "L.Guards", val: dict, seen: Set[int], expr: ast.AST) -> bool:
+    """when the statement that contains `expr` is executed under the valuation, is `expr` evaluated for sure (not behind an operand of
+    and / or / a conditional expression that the valuation leaves open or decides the other way)?"""
+    pm = L.parents_of(G.f)
+    cur = expr
+    while cur in pm and not isinstance(cur, ast.stmt):
+        par = pm[cur]
+        if isinstance(par, ast.IfExp) and cur is not par.test:
+            if G.value(val, par.test, seen=seen) is not (cur is par.body):
+                return False
+        if isinstance(par, ast.BoolOp):
+            i = next(k for k, v in enumerate(par.values) if v is cur)
+            for prev in par.values[:i]:
+                if G.value(val, prev, seen=seen) is not isinstance(par.op, ast.And):
+                    return False
+        if isinstance(par, (ast.ListComp, ast.SetComp, ast.GeneratorExp, ast.DictComp, ast.Lambda)):
+            return False
+        cur = par
+    return True
+
+
+def _ground_flags(repo: Repo, cls: str) -> Set[str]:
+    """boolean fields of the operator that say 'the effect groups are instantiated': set to False by the constructor and to True by a
+    method that stores the groups"""
+    def stores(fi: Optional[FuncInfo], value: Optional[bool]) -> Set[str]:
+        """fields of self the function assigns (value None: anything; else that boolean constant)"""
+        out = set()
+        if fi is None:
+            return out
+        for n in ast.walk(fi.node):
+            if isinstance(n, (ast.Assign, ast.AnnAssign)) and n.value is not None and \
+                    (value is None or (isinstance(n.value, ast.Constant) and n.value.value is value)):
+                out |= {t.attr for t in (n.targets if isinstance(n, ast.Assign) else [n.target]) if _is_self_attr(t, fi)}
+        return out
+
+    lowered = stores(repo.find_method(cls, "__init__"), False)
+    raised: Set[str] = set()
+    for c in repo.mro(cls):
+        for name in repo.classes[c].methods:
+            m = repo.find_method(cls, name)
+            if m is None or name == "__init__":
+                continue
+            if any(isinstance(n, ast.Assign) and any(_is_self_attr(t, m, GROUPS_FIELD) for t in n.targets) for n in ast.walk(m.node)):
+                raised |= stores(m, None) - {GROUPS_FIELD}
+    return lowered & raised
+
+
+def _flag_matcher(f: FuncInfo, flags: Set[str], base=None):
+    def m(e):
+        if _is_self_attr(e, f) and e.attr in flags and isinstance(e.ctx, ast.Load):
+            return "grounded"
+        return base(e) if base is not None else None
+    return m
+
+
+def _grounding_nodes(repo: Repo, f: FuncInfo, G: "L.Guards", val: dict, flags: Set[str], memo: dict, depth: int) -> Set[int]:
+    """CFG nodes of f that, executed with the flag False, leave the operator with its effect groups instantiated: a store to the groups
+    field, or a call of a method of the same object that does so on every normal path"""
+    g = G.g
+    seen = G.reach(val)
+    out: Set[int] = set()
+    for n in ast.walk(f.node):
+        if isinstance(n, ast.Assign) and any(_is_self_attr(t, f, GROUPS_FIELD) for t in n.targets):
+            out.add(g.node_of(n))
+        elif isinstance(n, ast.Call) and _is_self_attr(n.func, f) and f.cls and depth < 3:
+            t = repo.find_method(f.cls, n.func.attr)
+            if t is None or t.name == f.name or not _surely_evaluated(G, val, seen, n):
+                continue
+            if _instantiates_groups(repo, t, flags, memo, depth + 1):
+                out.add(g.node_containing(n))
+    out.discard(None)
+    return out
+
+
+def _instantiates_groups(repo: Repo, t: FuncInfo, flags: Set[str], memo: dict, depth: int) -> bool:
+    """entered with the flag False, every normal path through method t instantiates the effect groups"""
+    if t.qn in memo:
+        return memo[t.qn]
+    memo[t.qn] = False
+    ft = L.fn(repo, f"{t.cls}.{t.name}")
+    G = L.Guards(ft, _flag_matcher(ft, flags))
+    val = {"grounded": False}
+    nodes = _grounding_nodes(repo, ft, G, val, flags, memo, depth)
+    memo[t.qn] = bool(nodes) and G.g.exit not in G.reach(val, avoid=nodes)
+    return memo[t.qn]
+
+
+def rule_grounded(repo: Repo) -> RuleResult:
+    r = RuleResult("C03.grounded", "on every path of apply the effect groups are instantiated before they are walked, also for a fresh operator whose "
+                   "validation is skipped", "the successor contains the unconditional and conditional effects of the action")
+    f = _apply_anchor(repo)
+    g = C.cfg_of(f.node)
+    flags = _ground_flags(repo, f.cls)
+    uses = [n for n in ast.walk(f.node) if _is_self_attr(n, f, GROUPS_FIELD) and isinstance(n.ctx, ast.Load)]
+    if not uses:
+        raise AnalysisError(f"{APPLY}: the walk over self.{GROUPS_FIELD} was not found")
+    G = L.Guards(f, _flag_matcher(f, flags, _apply_matcher("previous_state")))
+    r.site(f.qn + " [groups instantiated]")
+    bad = []
+    memo: dict = {}
+    for skip, allow in itertools.product([True, False], repeat=2):
+        val = {"grounded": False, "applicable": True, "allow": allow}
+        if "skip" in G.atoms_seen:
+            val["skip"] = skip
+        nodes = _grounding_nodes(repo, f, G, val, flags, memo, 0)
+        seen = G.reach(val, avoid=nodes)
+        if any(g.node_containing(u) in seen for u in uses):
+            bad.append((skip, allow))
+    if bad:
+        r.fail(Finding("C03.grounded", f, "ungrounded:effect-groups",
+                       f"a not yet grounded operator walks its effect groups without instantiating them first (skip_validation, "
+                       f"allow_inapplicable_actions = {bad[0]}): the groups are the empty set and no effect is applied", node=uses[0]),
+               {"flag_fields": sorted(flags)})
+    else:
+        r.ok({"flag_fields": sorted(flags), "groups_instantiated_before_walk": True})
+    r.require_sites(1)
+    return r
+
+
+def _walk_role(paths, table) -> Optional[str]:
+    """the semantic name of the collection a loop ranges over, when its iterable is one of the collections of `table` (or its elements
+    moved into another sequence)"""
+    for x in sorted(paths):
+        if x[0] != "self" or len(x) < 2:
+            continue
+        role = None
+        for st in x[1:]:
+            if st.startswith("attr:") and st[5:] in table:
+                role = table[st[5:]]
+            elif st in _WALK_STEPS or st.startswith(_WALK_PREFIXES):
+                continue
+            else:
+                role = None
+                break
+        if role:
+            return role
+    return None
+
+
+def rule_walks(repo: Repo) -> RuleResult:
+    r = RuleResult("C03.walk", "the loops over the effect groups, the problem objects, the universal effects and the discrete / numeric effects of a "
+                   "group visit every element: no turn can end the walk", "every effect takes part in the transition, whatever the iteration order")
+    for spec, table in ((APPLY, OPERATOR_WALKS), (EFFECT_APPLY, EFFECT_WALKS)):
+        f = L.fn(repo, spec)
+        p = L.prov(repo, f)
+        G = L.Guards(f, _no_atoms)
+        for lp in [n for n in ast.walk(f.node) if isinstance(n, ast.For)]:
+            try:
+                tr = p.trace(lp.iter)
+            except KeyError:
+                continue
+            role = _walk_role(tr, table)
+            if role is None and spec == EFFECT_APPLY and tr and any(x[:2] == ("self", "attr:grounded_numeric_effects") for x in tr) and \
+                    not any(x[0].startswith("param:") for x in tr):
+                role = "numeric-results"          # the values computed from the numeric effects, stored in a second pass
+            if role is None:
+                continue
+            r.site(L.site(f, lp.iter, f"walk over {role}"))
+            if L.leaves_loop_early(G, {}, lp):
+                r.fail(Finding("C03.walk", f, f"walk-left-early:{role}", f"one turn of the loop over the {role} can end the loop (break / return): "
+                               f"the remaining elements are skipped, which ones depends on the iteration order", node=lp))
+            else:
+                r.ok({"function": f.qn, "walk": role, "left_early": False})
+    r.require_sites(6)
+    return r
+
+
+def _objects_matcher(p, base=None):
+    """`<problem objects> is None` (atom noobjects) and the truth value of the object table, over aliases"""
+    def is_objects(e) -> bool:
+        try:
+            tr = p.trace(e)
+        except KeyError:
+            return False
+        return bool(tr) and all(x == ("self", "attr:problem_objects") for x in tr)
+
+    def m(e):
+        if isinstance(e, ast.Compare) and len(e.ops) == 1 and isinstance(e.ops[0], (ast.Is, ast.IsNot, ast.Eq, ast.NotEq)) and \
+                isinstance(e.comparators[0], ast.Constant) and e.comparators[0].value is None and is_objects(e.left):
+            return "noobjects" if isinstance(e.ops[0], (ast.Is, ast.Eq)) else "!noobjects"
+        if isinstance(e, (ast.Name, ast.Attribute)) and isinstance(e.ctx, ast.Load) and is_objects(e):
+            return "!noobjects"
+        return base(e) if base is not None else None
+
+    m.is_objects = is_objects
+    return m
+
+
+def rule_noobjects(repo: Repo) -> RuleResult:
+    r = RuleResult("C03.noobjects", "an operator built without the (optional) problem objects still returns the successor: the absent object table "
+                   "is not dereferenced", "apply returns the successor for every operator the constructor accepts")
+    f = _apply_anchor(repo)
+    p = L.prov(repo, f)
+    m = _objects_matcher(p, _apply_matcher("previous_state"))
+    G = L.Guards(f, m)
+    derefs = []
+    for n in ast.walk(f.node):
+        if isinstance(n, (ast.Attribute, ast.Subscript)) and isinstance(n.ctx, ast.Load) and m.is_objects(n.value):
+            derefs.append(n)
+        elif isinstance(n, (ast.For, ast.comprehension)) and m.is_objects(n.iter):
+            derefs.append(n.iter)
+    r.site(f.qn + " [absent object table]")
+    bad = None
+    for skip, allow in itertools.product([True, False], repeat=2):
+        val = {"noobjects": True, "applicable": True, "allow": allow, "skip": skip}
+        seen = G.reach(val)
+        for d in derefs:
+            if G.reaches_expr(val, d, seen=seen):
+                bad = d
+    if bad is not None:
+        r.fail(Finding("C03.noobjects", f, "deref:absent-problem-objects", f"{unparse(bad, 60)} is evaluated although the operator has no problem "
+                       f"objects (None): apply raises instead of returning the successor of an action without forall effects", node=bad))
+    else:
+        r.ok({"dereferences_of_the_object_table": len(derefs), "reachable_without_objects": False})
+    r.require_sites(1)
+    return r
+
+
+def rule_universal_ground(repo: Repo) -> RuleResult:
+    r = RuleResult("C03.universal.ground", "the effect group built for one object of a forall is grounded -- with the action's parameter binding plus "
+                   "quantified parameter -> object -- on every path before its antecedents are tested and it is applied",
+                   "a forall effect fires for every object of the type, with the action's own arguments")
+    f = _apply_anchor(repo)
+    p = L.prov(repo, f)
+    g = C.cfg_of(f.node)
+    G = L.Guards(f, _no_atoms)
+    uni = [a for a in _effect_apply_calls(repo, f) if _kind_of_apply(p, a) == "universal"]
+    ctors = [c for c in L.calls_in(f.node) if isinstance(c.func, ast.Name) and c.func.id == "GroundedEffect"]
+    if not uni:
+        raise AnalysisError(f"{APPLY}: the application of the per-object effect group was not found")
+
+    def fresh(e) -> Set[tuple]:
+        return {x for x in p.trace(e) if len(x) == 1 and x[0].startswith("fresh:")}
+
+    grounds = [c for c in L.calls_in(f.node) if isinstance(c.func, ast.Attribute) and c.func.attr == "ground_conditional_effect"]
+    gfn = repo.func_opt("GroundedEffect.ground_conditional_effect")
+    for a in uni:
+        r.site(L.site(f, a, "grounded before use"))
+        mine = fresh(a.func.value)
+        gs = [c for c in grounds if fresh(c.func.value) & mine]
+        gnodes = {g.node_containing(c) for c in gs}
+        users = {g.node_containing(a)} | {g.node_containing(h) for h in L.calls_in(f.node) if isinstance(h.func, ast.Attribute)
+                                          and h.func.attr == "antecedents_hold" and fresh(h.func.value) & mine}
+        reached = False
+        starts = [g.node_containing(c) for c in ctors if fresh(c) & mine] or [g.entry]
+        for st in starts:
+            seen = G.reach({}, avoid=gnodes, start=st)
+            reached = reached or bool(users & seen)
+        if reached:
+            r.fail(Finding("C03.universal.ground", f, "ungrounded:universal-effect", "the per-object effect group of a forall can be tested / applied "
+                           "without having been grounded: its antecedents are vacuous and its effect sets empty", node=a))
+        else:
+            r.ok({"call": unparse(a, 60), "grounded_on_every_path": True})
+        for c in gs:
+            r.site(L.site(f, c, "parameter map"))
+            marg = L.arg_of(c, gfn, "parameters_map", 0)
+            ents = L.map_entries(p.trace(marg)) if marg is not None else set()
+            keys = {e for k, e in ents if k == "key"}
+            vals = {e for k, e in ents if k == "value"}
+            whole = {e for k, e in ents if k == "whole"}
+            quant_k = {e for e in keys if e[-1] == "attr:quantified_parameter"}
+            quant_v = {e for e in vals if any("problem_objects" in s_ for s_ in e)}
+            if MAP_KEY in keys and MAP_VALUE in vals and not (keys - quant_k - {MAP_KEY}) and not (vals - quant_v - {MAP_VALUE}) and not whole \
+                    and quant_k and quant_v:
+                r.ok({"map": "zip(action.signature, grounded_call_objects) + {quantified parameter: object}"})
+            else:
+                r.fail(Finding("C03.universal.ground", f, "parameter-map:universal-effect", f"the binding handed to the per-object effect group has keys "
+                               f"from {sorted(keys)[:3]} and values from {sorted(vals | whole)[:3]}; expected the action's parameters paired with the "
+                               f"call arguments in their own order, plus quantified parameter -> object", node=c))
+    r.require_sites(1)
+    return r
+
+
+def _pure_effect_copy(tr) -> bool:
+    """every source of the value is a copy of one of the group's discrete effects (constants handed to copy() do not count)"""
+    tr = {x for x in tr if not x[0].startswith("const:")}
+    return bool(tr) and all(x[0] == "self" and "attr:grounded_discrete_effects" in x and "call:copy" in x for x in tr)
+
+
+def rule_delete_positive(repo: Repo) -> RuleResult:
+    r = RuleResult("C03.delete.positive", "the fact a delete effect removes is looked up by the text of the POSITIVE form of the (negative) effect: "
+                   "the copy whose texts are read was made positive on every path", "delete effects remove the atom they negate")
+    f = L.fn(repo, EFFECT_APPLY)
+    p = L.prov(repo, f)
+    g = C.cfg_of(f.node)
+    G0 = L.Guards(f, _no_atoms)
+
+    def pos_atom(e):
+        if isinstance(e, ast.Attribute) and e.attr == "is_positive" and isinstance(e.ctx, ast.Load):
+            return "pos"
+        return None
+
+    GP = L.Guards(f, pos_atom)
+    only_negative = GP.reach({"pos": False}) - GP.reach({"pos": True})
+    copies = [c for c in L.calls_in(f.node) if isinstance(c.func, ast.Attribute) and c.func.attr == "copy" and _pure_effect_copy(p.trace(c))]
+    setters = [n for n in ast.walk(f.node) if isinstance(n, ast.Assign) and
+               any(isinstance(t, ast.Attribute) and t.attr == "is_positive" and _pure_effect_copy(p.trace(t.value)) for t in n.targets)]
+
+    def negating(c: ast.Call):
+        """True / False / None (not decided): copy(is_negated=<const>)"""
+        a = next((k.value for k in c.keywords if k.arg == "is_negated"), c.args[0] if c.args else None)
+        if a is None:
+            return False
+        return bool(a.value) if isinstance(a, ast.Constant) else None
+
+    pm = L.parents_of(f)
+
+    def in_log_message(e) -> bool:
+        cur = e
+        while cur in pm and not isinstance(cur, ast.stmt):
+            cur = pm[cur]
+            if isinstance(cur, ast.Call) and is_logging_call(cur):
+                return True
+        return False
+
+    done = set()
+    reported: Set[str] = set()
+    for rd_ in [n for n in ast.walk(f.node) if isinstance(n, ast.Attribute) and n.attr in POLARITY_TEXTS and isinstance(n.ctx, ast.Load)]:
+        try:
+            tr = p.trace(rd_.value)
+        except KeyError:
+            continue
+        rn = g.node_containing(rd_)
+        if not _pure_effect_copy(tr) or rn is None or rn not in only_negative or rn in done or in_log_message(rd_):
+            continue
+        mine = [c for c in copies if p.trace(c) & tr]
+        if not mine or any(negating(c) is None for c in mine):
+            continue
+        done.add(rn)
+        r.site(L.site(f, rd_, "text of the removed fact"))
+        sets = [s_ for s_ in setters if any(isinstance(t, ast.Attribute) and t.attr == "is_positive" and p.trace(t.value) & tr for t in s_.targets)]
+        wrong = [s_ for s_ in sets if not (isinstance(s_.value, ast.Constant) and s_.value.value is True)]
+        if wrong:
+            if "polarity" not in reported:
+                reported.add("polarity")
+                r.fail(Finding("C03.delete.positive", f, "delete-form:polarity", f"{unparse(wrong[0], 60)} does not make the copy of the delete effect "
+                               f"positive: its text '(not (p a))' never equals the text of a state fact and nothing is deleted", node=wrong[0]))
+            continue
+        snodes = {g.node_of(s_) for s_ in sets}
+        bad = False
+        for c in mine:
+            if negating(c):
+                continue                                  # the negated copy of a negative effect is its positive form
+            cn = g.node_containing(c)
+            if cn == rn or rn in G0.reach({}, avoid=snodes, start=cn):
+                bad = True
+        if bad and "positive" in reported:
+            continue
+        if bad:
+            reported.add("positive")
+            r.fail(Finding("C03.delete.positive", f, "delete-form:positive", f"{unparse(rd_, 60)} can be read from a copy of the delete effect that "
+                           f"is still negative: its text '(not (p a))' never equals the text of a state fact and nothing is deleted", node=rd_))
+        else:
+            r.ok({"read": unparse(rd_, 60), "copy_is_positive": True})
+    return r
+
+
+def rule_predmap(repo: Repo) -> RuleResult:
+    r = RuleResult("C03.predmap", "the predicate map of the state is a partial map: a delete effect whose predicate has no entry is a no-op (no lookup of "
+                   "the absent key), one whose predicate has an entry reaches the removal, and the set an add effect goes into ends up in the map",
+                   "delete / add effects act on the facts of their own predicate; states list only the predicates that have facts")
+    f = L.fn(repo, EFFECT_APPLY)
+    p = L.prov(repo, f)
+    g = C.cfg_of(f.node)
+    pm = L.parents_of(f)
+    MAP = ("param:state", "attr:state_predicates")
+
+    def is_map(e) -> bool:
+        try:
+            return MAP in p.trace(e)
+        except KeyError:
+            return False
+
+    def paths(e) -> set:
+        try:
+            return p.trace(e)
+        except KeyError:
+            return set()
+
+    def looked_up(e) -> bool:
+        """the value of `map.get(key)` (no default): None exactly when the key is absent"""
+        tr = paths(e)
+        return MAP + ("call:get",) in tr and not any("arg1:get" in x for x in tr)
+
+    def atom(e):
+        if isinstance(e, ast.Compare) and len(e.ops) == 1 and isinstance(e.ops[0], (ast.In, ast.NotIn)) and \
+                (is_map(e.comparators[0]) or MAP + ("call:keys",) in paths(e.comparators[0])):
+            return "haskey" if isinstance(e.ops[0], ast.In) else "!haskey"
+        if isinstance(e, ast.Compare) and len(e.ops) == 1 and isinstance(e.ops[0], (ast.Is, ast.IsNot, ast.Eq, ast.NotEq)) and \
+                isinstance(e.comparators[0], ast.Constant) and e.comparators[0].value is None and looked_up(e.left):
+            return "!haskey" if isinstance(e.ops[0], (ast.Is, ast.Eq)) else "haskey"
+        if isinstance(e, (ast.Name, ast.Call)) and isinstance(getattr(e, "ctx", ast.Load()), ast.Load) and looked_up(e):
+            return "haskey"              # truth value of the looked-up set: absent -> None -> false
+        return None
+
+    def guarded_by_handler(e) -> bool:
+        cur = e
+        while cur in pm:
+            par = pm[cur]
+            if isinstance(par, ast.Try) and par.handlers and any(cur is s_ for s_ in par.body):
+                return True
+            cur = par
+        return False
+
+    def effect_key(e) -> bool:
+        tr = p.trace(e)
+        return bool(tr) and any(x[0] == "self" and "attr:grounded_discrete_effects" in x for x in tr) and not any(x[0] == "param:state" for x in tr)
+
+    G = L.Guards(f, atom)
+    stores = {g.node_of(n) for n in ast.walk(f.node) if isinstance(n, ast.Assign) and any(isinstance(t, ast.Subscript) and is_map(t.value) for t in n.targets)}
+    stores |= {g.node_containing(c) for c in L.calls_in(f.node) if isinstance(c.func, ast.Attribute) and c.func.attr in ("update", "__setitem__")
+               and is_map(c.func.value)}
+    stores.discard(None)
+    loads = [n for n in ast.walk(f.node) if isinstance(n, ast.Subscript) and isinstance(n.ctx, ast.Load) and is_map(n.value)
+             and effect_key(n.slice) and not guarded_by_handler(n)]
+    r.site(f.qn + " [absent key]")
+    absent = {"haskey": False}
+    seen = G.reach(absent, avoid=stores)
+    hit = [n for n in loads if g.node_containing(n) not in stores and G.reaches_expr(absent, n, seen=seen)]
+    if hit:
+        r.fail(Finding("C03.predmap", f, "lookup:absent-key", f"{unparse(hit[0], 60)} is evaluated although the predicate has no entry in the state's "
+                       f"predicate map (states list only predicates that have facts): KeyError instead of a no-op", node=hit[0]))
+    else:
+        r.ok({"lookups_by_effect_key": len(loads), "reachable_for_absent_key": False})
+    removes, inserts = _predicate_map_mutations(repo, f)
+    r.site(f.qn + " [present key]")
+    present = {"haskey": True}
+    seen = G.reach(present)
+    dead = [d for d in removes if isinstance(d, ast.Call) and not G.reaches_expr(present, d, seen=seen)]
+    if dead:
+        r.fail(Finding("C03.predmap", f, "removal:present-key", f"{unparse(dead[0], 60)} is not reached when the predicate of the delete effect has an "
+                       f"entry in the state's predicate map: the fact is not deleted", node=dead[0]))
+    else:
+        r.ok({"removal_reachable_for_present_key": True})
+    # an add effect put into a set that may be new: the set has to be stored under the predicate's key in the same turn
+    G0 = L.Guards(f, _no_atoms)
+    for x in inserts:
+        if not (isinstance(x, ast.Call) and x.func.attr in ("add", "append") and x.args):
+            continue
+        maybe_new = [pth for pth in p.trace(x.func.value) if pth[0].startswith("fresh:") and
+                     not any(s_.startswith(("in:setval@", "in:setitem@")) or s_ == "arg1:setdefault" for s_ in pth)]
+        if not maybe_new:
+            continue
+        loops = _enclosing_loops(f, x)
+        if not loops:
+            continue
+        r.site(L.site(f, x, "new set stored"))
+        xn = g.node_containing(x)
+        head = g.node_of(loops[0])
+        inside = {g.node_of(s_) for s_ in ast.walk(loops[0]) if isinstance(s_, ast.stmt) and s_ is not loops[0]}
+        after = G0.reach({}, avoid=stores, start=xn)
+        lost_after = head in after or any(n not in inside and n != g.raise_ for n in after)
+        before = set()
+        for s_ in [m_ for m_, l_ in g.succ[head] if l_ == "iter"]:
+            before |= G0.reach({}, avoid=stores | {head}, start=s_)
+        if lost_after and xn in before:
+            r.fail(Finding("C03.predmap", f, "insertion:new-set-not-stored", f"the set {unparse(x.func.value, 40)} an add effect is put into may be a new "
+                           f"one (the predicate had no entry) and is not stored in the state's predicate map: the added fact is lost", node=x))
+        else:
+            r.ok({"insertion": unparse(x, 60), "set_stored_under_key": True})
+    r.require_sites(2)
+    return r
+
+
+def rule_evalstate(repo: Repo) -> RuleResult:
+    r = RuleResult("C03.evalstate", "when GroundedEffect.apply is handed the state before the action, the numeric right-hand sides read THAT state's "
+                   "fluents (not those of the state being changed)", "right-hand sides are evaluated in the state before the action")
+    f = L.fn(repo, EFFECT_APPLY)
+    if "previous_state" not in f.params or "state" not in f.params:
+        raise AnalysisError(f"{EFFECT_APPLY}: parameters 'state' / 'previous_state' not found")
+    p = L.prov(repo, f)
+
+    def atom(e):
+        if isinstance(e, ast.Compare) and len(e.ops) == 1 and isinstance(e.ops[0], (ast.Is, ast.IsNot, ast.Eq, ast.NotEq)) and \
+                isinstance(e.comparators[0], ast.Constant) and e.comparators[0].value is None and L.is_param(p, e.left, "previous_state"):
+            return "!hasprev" if isinstance(e.ops[0], (ast.Is, ast.Eq)) else "hasprev"
+        if isinstance(e, ast.Name) and L.is_param(p, e, "previous_state"):
+            return "hasprev"
+        return None
+
+    G = L.Guards(f, atom)
+    val = {"hasprev": True}
+    seen = G.reach(val)
+    under = G.under(val, seen)
+    rd = L.rd_of(f)
+
+    def roots(e: ast.AST, depth: int = 0) -> Set[str]:
+        """parameters the value can come from under the valuation: conditional expressions take the decided branch, a local name is
+        followed through the definitions that reach its use along the edges the valuation leaves open (an initial value that is
+        overwritten on every such path does not count)"""
+        if isinstance(e, ast.IfExp):
+            t = G.value(val, e.test, seen=seen)
+            if t is True or t is False:
+                return roots(e.body if t else e.orelse, depth)
+            return roots(e.body, depth) | roots(e.orelse, depth)
+        if isinstance(e, ast.BoolOp):
+            # `a or b` is the first operand that is true (`a and b`: the first that is false), else the last one
+            out: Set[str] = set()
+            stop = isinstance(e.op, ast.Or)
+            for i, x in enumerate(e.values):
+                t = G.value(val, x, seen=seen) if i < len(e.values) - 1 else stop
+                if t is (not stop):
+                    continue
+                out |= roots(x, depth)
+                if t is stop:
+                    break
+            return out
+        if isinstance(e, ast.Attribute):
+            return roots(e.value, depth)
+        at = G.g.node_containing(e)
+        if isinstance(e, ast.Name) and at is not None and depth < 8:
+            out: Set[str] = set()
+            for d in G._defs(rd, at, e.id, seen, G._vkey(val)):
+                st = G.g.stmt[d]
+                if d == G.g.entry:
+                    out.add(f"param:{e.id}")
+                elif isinstance(st, (ast.Assign, ast.AnnAssign)) and st.value is not None and \
+                        isinstance(st.targets[0] if isinstance(st, ast.Assign) else st.target, ast.Name) and (isinstance(st, ast.AnnAssign) or len(st.targets) == 1):
+                    out |= roots(st.value, depth + 1)
+                else:
+                    out |= {x[0] for x in p.trace(e, under=under)}
+            if out:
+                return out
+        return {x[0] for x in p.trace(e, under=under)}
+
+    sev = repo.func_opt("models.numerical_expression::set_expression_value")
+    for c in L.calls_named(f, "set_expression_value"):
+        arg = L.arg_of(c, sev, "state_fluents", 1)
+        if arg is None or not G.reaches_expr(val, c, seen=seen):
+            continue
+        r.site(L.site(f, c, "fluent environment when the pre-state is given"))
+        got = {x for x in roots(arg) if x.startswith("param:")}
+        if got == {"param:previous_state"}:
+            r.ok({"call": unparse(c, 60), "environment": "previous_state.state_fluents"})
+        elif "param:state" in got:
+            r.fail(Finding("C03.evalstate", f, "rhs-env:pre-state-ignored", f"with a pre-state given, {unparse(c, 60)} reads the fluents of "
+                           f"{sorted(got)}: right-hand sides see the updates of effect groups processed earlier (order dependent result)", node=c))
+    return r
+
+
 def rules(repo: Repo, tier: str) -> List[RuleResult]:
     from . import c06, c07
     out = [rule_antecedent(repo), rule_copy(repo), rule_delete_add(repo), rule_frame(repo), c12.rule_assign(repo, "C03.assign"),
@@ -565,4 +1168,6 @@ def rules(repo: Repo, tier: str) -> List[RuleResult]:
     # every effect group of the schema is instantiated (a `when` group with only numeric consequents is an effect group too)
     from . import c20
     out.append(c20.rule_complete(repo).as_rule("C03.ground.complete"))
+    out += [rule_grounded(repo), rule_walks(repo), rule_noobjects(repo), rule_universal_ground(repo), rule_delete_positive(repo),
+            rule_predmap(repo), rule_evalstate(repo)]
     return out
